@@ -12,6 +12,7 @@ NOMATCH_PATCHES = [
     ("typedecl", b"@@\n@@\n-type zzzNope struct{}\n+type zzzYep struct{}\n"),
     ("import-guard", b"@@\nvar x expression\n@@\n import \"zzz/nope\"\n\n-f(x)\n+g(x)\n"),
     ("package-guard", b"@@\nvar x identifier\n@@\n package zzznope\n\n-x\n+y\n"),
+    ("import-guards", b"@@\nvar x expression\nvar n identifier\n@@\n import n \"zzz/nope\"\n-import \"zzz/nope2\"\n+import \"zzz/yep\"\n\n-n.f(x)\n+yep.g(x)\n"),
     ("two-changes", b"@@\n@@\n-zzzNope()\n+zzzYep()\n\n# second\n@@\n@@\n-zzzNope2\n+zzzYep2\n"),
 ]
 
@@ -19,6 +20,7 @@ QUICK_FLAGSETS = [
     {}, {"diff": True}, {"print": True}, {"print": True, "verbose": True},
     {"diff": True, "skip_imports": True}, {"skip_generated": True}, {"verbose": True},
     {"print": True, "skip_imports": True, "skip_generated": True},
+    {"diff": True, "print": True}, {"diff": True, "print": True, "verbose": True, "skip_generated": True},
 ]
 
 
